@@ -57,6 +57,9 @@ pub struct Case {
 	pub ops: Vec<COp>,
 	/// present for the schedule-exploration stream
 	pub sched: Option<SchedCase>,
+	/// second schedule-exploration stream: clock, then a sound scheduled on it (c05_sched2.rs)
+	#[serde(default)]
+	pub sched2: Option<super::c05_sched2::Sched2Case>,
 }
 
 #[derive(Clone, Debug, Serialize, Deserialize)]
@@ -156,6 +159,7 @@ fn gen_ops_case(seed: u64, tier: Tier) -> Case {
 		ibs,
 		ops,
 		sched: None,
+		sched2: None,
 	}
 }
 
@@ -692,6 +696,7 @@ fn gen_sched_case(seed: u64, _tier: Tier) -> Case {
 			switch_prob: *rng.pick(&[0.15, 0.4, 0.8]),
 			schedule: None,
 		}),
+		sched2: None,
 	}
 }
 
@@ -894,7 +899,7 @@ impl Check for C05 {
 		CheckInfo {
 			id: "C05",
 			level: "exploration",
-			rule: "stream ops (3/4 of the cases): seeded history over {add clock, start, pause, stop, set speed (immediate / delayed / on another clock's time, any easing and duration), drop clock, play a DC sound at a clock time, resume a sound at a clock time, callback of arbitrary size} at seeded internal buffer size and sample rate; stream sched (1/4): audio task (callbacks split into on_start_processing + process), reader task (ClockHandle::time() in a loop) under seeded random schedules at the yield points inside the shared clock state; non-trivial = a clock ticked or audio was rendered (ops) / at least one read overlapped a publication (sched); distinct = hash of per-callback (ticking clocks, fired events) (ops) / hash of the (task, site) yield trace (sched)",
+			rule: "1/16 of the cases: a gameplay task adds a clock, starts it and plays a sound scheduled on it while an audio task runs callbacks under seeded random schedules - the sound must start, not be cancelled; the others: stream ops (3/4 of the cases): seeded history over {add clock, start, pause, stop, set speed (immediate / delayed / on another clock's time, any easing and duration), drop clock, play a DC sound at a clock time, resume a sound at a clock time, callback of arbitrary size} at seeded internal buffer size and sample rate; stream sched (1/4): audio task (callbacks split into on_start_processing + process), reader task (ClockHandle::time() in a loop) under seeded random schedules at the yield points inside the shared clock state; non-trivial = a clock ticked or audio was rendered (ops) / at least one read overlapped a publication (sched); distinct = hash of per-callback (ticking clocks, fired events) (ops) / hash of the (task, site) yield trace (sched)",
 			assumptions: vec![
 				"the reference clock replicates the documented accumulation (speed x dt once per internal chunk, clocks updated in creation order before the mixer) in f64; tolerance 1e-9 ticks".into(),
 				"a scheduled event may begin anywhere inside the internal buffer during which the reference clock reaches its time; a numerical tie window of 1e-7 ticks accepts the neighbouring buffer".into(),
@@ -916,12 +921,28 @@ impl Check for C05 {
 	}
 	fn case(&self, tier: Tier, seed: u64, index: u64) -> Json {
 		let s = derive_seed(seed, 5, index);
-		let c = if index % 4 == 3 { gen_sched_case(s, tier) } else { gen_ops_case(s, tier) };
+		let c = if index % 16 == 7 {
+			let mut rng = Rng::new(s);
+			Case {
+				seed: s,
+				sample_rate: 1000,
+				ibs: 8,
+				ops: vec![],
+				sched: None,
+				sched2: Some(super::c05_sched2::gen(&mut rng)),
+			}
+		} else if index % 4 == 3 {
+			gen_sched_case(s, tier)
+		} else {
+			gen_ops_case(s, tier)
+		};
 		serde_json::to_value(c).unwrap()
 	}
 	fn run(&self, case: &Json) -> CaseResult {
 		let case: Case = serde_json::from_value(case.clone()).expect("malformed C05 case");
-		if case.sched.is_some() {
+		if let Some(s2) = &case.sched2 {
+			super::c05_sched2::run(s2)
+		} else if case.sched.is_some() {
 			run_sched_case(&case)
 		} else {
 			run_ops_case(&case)
